@@ -144,7 +144,8 @@ def run(ctx):
       for t, matched in sorted(rejected.items()):
         ev = tr[t][matched]
         sig = dict(part="threads", scenario=p, mode=m, op=ev["op"], th=ev["th"][:1])
-        ctx.report(sig, dict(trace=tr[t], failing_event=matched, scenario=PROGS[p], threaded=(m == "t"),
+        ctx.report(sig, dict(trace=tr[t], failing_event=matched, scenario=PROGS[p], prog=p, threaded=(m == "t"),
+                             schedule=[e["th"] for e in tr[t] if e["th"] != "-"],
                              note="TLC rejected the recorded trace at this event (index from 0)"))
       total += len(tr)
       ctx.traces += len(tr)
@@ -162,3 +163,16 @@ def run(ctx):
   if not quick:
     C06.export_edges(ctx, "EX_L2q.cfg", pl, cap=60000)
   ctx.exhaustive = False
+
+
+def replay_one(ctx, rep):
+  """re-run the scenario under the recorded schedule (thread per shared operation) and let TLC judge it"""
+  if "behaviour" in rep:
+    return core.replay(ctx, rep["adapter"], [rep["behaviour"]], params=rep.get("params"), procs=1)
+  p, thr = rep["prog"], rep["threaded"]
+  ev, _, _ = drive((p, thr, "prefix", list(rep["schedule"])))
+  m = "t" if thr else "i"
+  r, rej = tracecheck.validate("recoco", "TraceThreads", "TR_%s%s.cfg" % (p, m), [ev], tag="C07-replay")
+  for t, matched in rej:
+    e = ev[matched]
+    ctx.report(dict(part="threads", scenario=p, mode=m, op=e["op"], th=e["th"][:1]), dict(trace=ev, failing_event=matched))
